@@ -490,6 +490,23 @@ func concSchedules(seed uint64) []schedule {
 			if e.d.NumEvents() != nev {
 				viols = append(viols, v("C14", "the rotation queued before Close performed I/O after Close had returned", outcome, steps...)...)
 			}
+			// "everything acknowledged before Close is present after the next Open" — Close won the race with the rotation
+			// of the sealing append: the next Open finds the tail sealed on disk and unsealed in the meta store
+			for round := 0; round < 2; round++ {
+				w2, oerr := openWalOn(e.d, 150, nil)
+				if oerr != nil {
+					viols = append(viols, v("C14", "Open fails after a Close that raced with a queued rotation", oerr.Error(), append(steps, "Open")...)...)
+					break
+				}
+				got := readOutcome(w2, 1)
+				fi, _ := w2.FirstIndex()
+				la, _ := w2.LastIndex()
+				w2.Close()
+				if got != "ok "+tokKey(logTok(big)) || fi != 1 || la != 1 {
+					viols = append(viols, v("C14", "an entry acknowledged before Close is not present after the next Open", fmt.Sprintf("Open #%d: first=%d last=%d GetLog(1)=%s", round+1, fi, la, clipS(got)), append(steps, "Open (twice)")...)...)
+					break
+				}
+			}
 			return outcome, viols
 		}})
 	// ---- C14: after Close, with no read in flight, every file handle is released (real files; collector off) ----
